@@ -28,6 +28,123 @@ pub struct Scn {
     /// scale scenario (the trace is empty then): see `Flood`
     #[serde(default)]
     pub flood: Option<Flood>,
+    /// file mode: the trace is written to a capture file (classic pcap, little endian, microseconds) and every
+    /// analyzer reads it through its own `analyze_pcap`; per frame the number of bytes the file keeps of it (a
+    /// capture taken with a snap length: incl_len < orig_len), 0 = all of it
+    #[serde(default)]
+    pub pcap_snap: Option<Vec<usize>>,
+}
+
+/// Write `trace` as a classic pcap file of the given link type; `snap[i]` > 0 truncates record i to that many bytes.
+#[cfg_attr(huginn_net_verif_sched, allow(dead_code))]
+fn write_pcap(path: &str, linktype: u32, trace: &[Timed], snap: &[usize]) -> std::io::Result<()> {
+    let mut f: Vec<u8> = vec![];
+    f.extend_from_slice(&0xa1b2c3d4u32.to_le_bytes());
+    f.extend_from_slice(&2u16.to_le_bytes());
+    f.extend_from_slice(&4u16.to_le_bytes());
+    f.extend_from_slice(&0i32.to_le_bytes());
+    f.extend_from_slice(&0u32.to_le_bytes());
+    f.extend_from_slice(&262144u32.to_le_bytes());
+    f.extend_from_slice(&linktype.to_le_bytes());
+    for (i, p) in trace.iter().enumerate() {
+        let keep = match snap.get(i).copied().unwrap_or(0) {
+            0 => p.frame.len(),
+            n => n.min(p.frame.len()),
+        };
+        f.extend_from_slice(&((p.t / 1_000_000_000) as u32).to_le_bytes());
+        f.extend_from_slice(&(((p.t / 1000) % 1_000_000) as u32).to_le_bytes());
+        f.extend_from_slice(&(keep as u32).to_le_bytes());
+        f.extend_from_slice(&(p.frame.len() as u32).to_le_bytes());
+        f.extend_from_slice(&p.frame[..keep]);
+    }
+    std::fs::write(path, f)
+}
+
+/// File mode: the unified analyzer (everything on, matching on) and the TCP and HTTP analyzers each read the same
+/// capture file; the TCP and HTTP results the unified analyzer reports, in order, must be the protocol analyzers'.
+#[cfg(huginn_net_verif_sched)]
+fn run_pcap(_s: &Scn, _snap: &[usize], _st: &mut RunStats) -> Result<(), Violation> {
+    Ok(()) // netsim builds only (C20 is not served by the scheduler engine)
+}
+
+#[cfg(not(huginn_net_verif_sched))]
+fn run_pcap(s: &Scn, snap: &[usize], st: &mut RunStats) -> Result<(), Violation> {
+    use std::sync::mpsc;
+    sut::set_db_variant(0);
+    clock::arm(1_700_000_000_000);
+    let dir = format!("{}/out/tmp", crate::runner::verif_root());
+    std::fs::create_dir_all(&dir).map_err(|e| Violation::new("harness-error", "", format!("{}: {}", dir, e)))?;
+    let path = format!("{}/c20-{}-{:?}.pcap", dir, std::process::id(), std::thread::current().id()).replace(['(', ')'], "");
+    write_pcap(&path, 1, &s.trace, snap).map_err(|e| Violation::new("harness-error", "", format!("{}: {}", path, e)))?;
+    let res = (|| -> Result<(Vec<Obs>, Vec<Obs>, Vec<Obs>), String> {
+        let mut ucfg = SutCfg::new(Kind::Unified, s.cap);
+        ucfg.uni = Some((true, true, false, true));
+        let (mut u, mut t, mut h) = (vec![], vec![], vec![]);
+        if let Sut::Unified(mut a, _) = Sut::new(&ucfg)? {
+            let (tx, rx) = mpsc::channel();
+            a.analyze_pcap(&path, tx, None).map_err(|e| format!("unified analyze_pcap: {}", e))?;
+            for r in rx.try_iter() {
+                u.extend(sut::obs_uni(&r));
+            }
+        }
+        if let Sut::Tcp(mut a, _) = Sut::new(&SutCfg::new(Kind::Tcp, s.cap))? {
+            let (tx, rx) = mpsc::channel();
+            a.analyze_pcap(&path, tx, None).map_err(|e| format!("tcp analyze_pcap: {}", e))?;
+            for r in rx.try_iter() {
+                t.extend(sut::obs_tcp(&r));
+            }
+        }
+        if let Sut::Http(mut a) = Sut::new(&SutCfg::new(Kind::Http, s.cap))? {
+            let (tx, rx) = mpsc::channel();
+            a.analyze_pcap(&path, tx, None).map_err(|e| format!("http analyze_pcap: {}", e))?;
+            for r in rx.try_iter() {
+                h.extend(sut::obs_http(&r));
+            }
+        }
+        Ok((u, t, h))
+    })();
+    let _ = std::fs::remove_file(&path);
+    let (u, t, h) = res.map_err(|e| Violation::new("harness-error", "", e))?;
+    // the statement compares packets that every enabled analyzer accepts: when the TCP or the HTTP analyzer rejects
+    // one of the records as the file holds it (a cut inside the headers, corrupted frames), the run only counts
+    {
+        let cut_trace: Vec<Timed> = s.trace.iter().enumerate().map(|(i, p)| {
+            let keep = match snap.get(i).copied().unwrap_or(0) {
+                0 => p.frame.len(),
+                n => n.min(p.frame.len()),
+            };
+            Timed { t: p.t, frame: p.frame[..keep].to_vec(), conn: p.conn }
+        }).collect();
+        for k in [Kind::Tcp, Kind::Http] {
+            clock::arm(1_700_000_000_000);
+            let outs = sut::run_deliver(&SutCfg::new(k, s.cap), &cut_trace).map_err(|e| Violation::new("harness-error", "", e))?;
+            if outs.iter().any(|o| o.err.is_some()) {
+                st.probe("capture_file_with_a_record_an_analyzer_rejects");
+                st.evals = 1;
+                return Ok(());
+            }
+        }
+    }
+    st.evals = s.trace.len() as u64;
+    st.packets += 3 * s.trace.len() as u64;
+    st.fault("capture_file_read_by_each_analyzer");
+    let cut = snap.iter().filter(|x| **x > 0).count() as u64;
+    st.fault_n("record_cut_by_the_snap_length", cut);
+    for (name, kinds, want) in [("tcp", &TCP_KINDS[..], &t), ("http", &HTTP_KINDS[..], &h)] {
+        // uptime fields depend on which instance's tracker saw what when; the file carries no usable clock for them
+        let got: Vec<&Obs> = u.iter().filter(|o| kinds.contains(&o.kind.as_str()) && !o.kind.ends_with("uptime")).collect();
+        let want: Vec<&Obs> = want.iter().filter(|o| kinds.contains(&o.kind.as_str()) && !o.kind.ends_with("uptime")).collect();
+        for o in &want {
+            st.ev(&o.kind);
+        }
+        if got != want {
+            let k = got.iter().zip(want.iter()).position(|(a, b)| a != b).unwrap_or(got.len().min(want.len()));
+            return Err(Violation::new("field-mismatch", format!("{}:capture-file", name), format!("reading one capture file of {} records ({} cut by the snap length): the unified analyzer reports {} {} results, the {} analyzer {}; first difference at result {}: {} vs {}", s.trace.len(), cut, got.len(), name, name, want.len(), k, got.get(k).map(|o| o.short()).unwrap_or_else(|| "<none>".into()), want.get(k).map(|o| o.short()).unwrap_or_else(|| "<none>".into()))));
+        }
+    }
+    st.nontrivial = !t.is_empty();
+    st.sim_ns += s.trace.last().map(|p| p.t).unwrap_or(0);
+    Ok(())
 }
 
 /// One connection opens, then `n` other clients open theirs (all within the configured capacity `cap`, all alive
@@ -176,7 +293,7 @@ impl Prop for C20 {
         // scale scenario, one run in 1500: a little more than 2^16 / 2^17 / 2^18 connections open at once
         if r.chance(1, 1500) {
             let n = (1usize << *r.pick(&[16u32, 16, 17, 18])) + r.urange(50, 500);
-            return Scn { cap: 0, trace: vec![], configs: vec![], boundaries: vec![], db_variant: 0, flood: Some(Flood { n, cap: *r.pick(&[n + 1000, 2 * n, 100_000_000]), seed: r.next_u64() }) };
+            return Scn { cap: 0, trace: vec![], configs: vec![], boundaries: vec![], db_variant: 0, pcap_snap: None, flood: Some(Flood { n, cap: *r.pick(&[n + 1000, 2 * n, 100_000_000]), seed: r.next_u64() }) };
         }
         let n = r.urange(2, 6);
         let v6 = r.chance(1, 5);
@@ -222,14 +339,20 @@ impl Prop for C20 {
             Tier::Thorough => (0..16).collect(),
         };
         let boundaries = if r.chance(1, 4) { (0..r.urange(1, 3)).map(|_| r.usize_below(trace.len() + 1)).collect() } else { vec![] };
-        Scn { cap: *r.pick(&[32usize, 100, 1000]), trace, configs, boundaries, db_variant: if r.chance(1, 4) { 1 + r.below(sut::DB_VARIANTS as u64) as u32 } else { 0 }, flood: None }
+        // file mode, one Ethernet-framed trace in eight: a fifth of the records cut by a snap length (never below the
+        // headers' worth of 54..128 bytes, as `tcpdump -s` does)
+        if o.framing == Framing::Ethernet && r.chance(1, 8) {
+            let snap: Vec<usize> = trace.iter().map(|p| if r.chance(1, 5) { *r.pick(&[54usize, 60, 64, 68, 96, 128]).min(&p.frame.len()) } else { 0 }).collect();
+            return Scn { cap: *r.pick(&[32usize, 100, 1000]), trace, configs: vec![], boundaries: vec![], db_variant: 0, flood: None, pcap_snap: Some(snap) };
+        }
+        Scn { cap: *r.pick(&[32usize, 100, 1000]), trace, configs, boundaries, db_variant: if r.chance(1, 4) { 1 + r.below(sut::DB_VARIANTS as u64) as u32 } else { 0 }, flood: None, pcap_snap: None }
     }
 
     fn systematic(tier: Tier) -> Vec<Scn> {
         // once per check: more than 2^20 connections open at once on analyzers configured for two million (in the
         // quick tier the build with overflow checks and debug assertions, four times slower, stops above 2^17)
         let n = if tier == Tier::Quick && crate::NETSIM_ENGINE == "netsim" { (1 << 17) + 200 } else { (1 << 20) + 200 };
-        vec![Scn { cap: 0, trace: vec![], configs: vec![], boundaries: vec![], db_variant: 0, flood: Some(Flood { n, cap: 2_000_000, seed: 20 }) }]
+        vec![Scn { cap: 0, trace: vec![], configs: vec![], boundaries: vec![], db_variant: 0, pcap_snap: None, flood: Some(Flood { n, cap: 2_000_000, seed: 20 }) }]
     }
 
     fn run_wall_limit_s() -> u64 {
@@ -240,6 +363,9 @@ impl Prop for C20 {
         if let Some(fl) = &s.flood {
             sut::set_db_variant(0);
             return run_flood(fl, st);
+        }
+        if let Some(snap) = &s.pcap_snap {
+            return run_pcap(s, snap, st);
         }
         sut::set_db_variant(s.db_variant);
         if s.db_variant != 0 {
